@@ -233,6 +233,10 @@ func (w *worker[T, JobType]) WaitUntilFinished() {
 }
 
 func (w *worker[T, JobType]) Errs() <-chan error {
+	// Stop and Restart replace the channel under the mutex
+	w.mx.RLock()
+	defer w.mx.RUnlock()
+
 	return w.errorChan
 }
 
@@ -646,8 +650,13 @@ func (w *worker[T, JobType]) Stop() error {
 		return ErrNotRunningWorker
 	}
 
-	if w.cancel != nil {
-		defer w.cancel()
+	// Restart replaces the cancel function under the mutex
+	w.mx.RLock()
+	cancel := w.cancel
+	w.mx.RUnlock()
+
+	if cancel != nil {
+		defer cancel()
 	}
 	defer w.status.Store(stopped)
 
@@ -758,6 +767,10 @@ func (w *worker[T, JobType]) Resume() error {
 }
 
 func (w *worker[T, JobType]) Context() context.Context {
+	// Restart replaces the context under the mutex
+	w.mx.RLock()
+	defer w.mx.RUnlock()
+
 	return w.ctx
 }
 
